@@ -686,19 +686,20 @@ fn oracle_c05(rep: &mut Report, c: &Case, spec: &openapiv3::OpenAPI, h: &hir::Hi
     for (path, method, op, item) in spec.operations() {
         let Some(ho) = h.operations.iter().find(|o| o.path == path && o.method == method) else { continue };
         let Some(decl) = declared_inputs(spec, op, item) else { continue };
+        // parameters are one scope, body members another (D): within a scope names are distinct after folding;
+        // across the two, names that differ but fold alike give two equal struct fields (a C02 matter) and are skipped here
         let fold = |s: &str| s.chars().filter(|c| c.is_ascii_alphanumeric()).collect::<String>().to_lowercase();
-        let mut folded: Vec<String> = decl.iter().map(|(n, _, _)| fold(n)).collect();
-        folded.sort();
-        let n0 = folded.len();
-        folded.dedup();
-        if folded.len() != n0 { rep.bump("c05_outside_D_input_names_clash"); continue; }
+        let clash = decl.iter().enumerate().any(|(i, (n, l, _))| decl.iter().skip(i + 1).any(|(m, k, _)| fold(n) == fold(m) && (n != m || (l == "body") == (k == "body"))));
+        if clash { rep.bump("c05_outside_D_input_names_clash"); continue; }
         rep.bump("c05_operations_checked");
         let body_is_allof = op.request_body.as_ref().and_then(|b| b.as_item()).and_then(|b| b.content.get("application/json")).and_then(|m| m.schema.as_ref()).map(|s| matches!(s.resolve(spec).kind, openapiv3::SchemaKind::AllOf { .. })).unwrap_or(false);
         for (n, l, required) in &decl {
             let hits: Vec<_> = ho.parameters.iter().filter(|p| &p.name == n && specio::loc(&p.location) == l).collect();
             if hits.len() != 1 {
-                let clash = decl.iter().filter(|(m, _, _)| m == n).count() > 1;
-                rep.oracle_fail(if hits.is_empty() { "inputDropped" } else { "inputDuplicated" }, if clash { vec!["sameNameDifferentLocation".to_string()] } else { vec![] }, &case, &format!("{method} {path}: declared input {n} in {l} appears {} times in the generated interface", hits.len()));
+                // recorded finding: a body member named like a parameter is dropped (the parameter is kept)
+                let shadowed = hits.is_empty() && l == "body" && decl.iter().any(|(m, k, _)| m == n && k != "body") && ho.parameters.iter().any(|p| &p.name == n && p.location != hir::Location::Body);
+                if shadowed { rep.oracle_fail("bodyMemberShadowed", vec!["bodyNonBodyNameClash".to_string()], &case, &format!("{method} {path}: body member {n} is dropped because a parameter has the same name")); }
+                else { rep.oracle_fail(if hits.is_empty() { "inputDropped" } else { "inputDuplicated" }, vec![], &case, &format!("{method} {path}: declared input {n} in {l} appears {} times in the generated interface", hits.len())); }
                 continue;
             }
             if hits[0].optional == *required {
